@@ -257,6 +257,12 @@ class DocModel(object):
     else:
       self._auto_remove_set.discard(record)
 
+  def clear_auto_removes(self):
+    """
+    Forget the records marked for removal (used when the actions that marked them get reverted).
+    """
+    self._auto_remove_set.clear()
+
   def apply_auto_removes(self):
     """
     Remove the records marked for removal.
